@@ -18,6 +18,7 @@ def run(tier):
     for family in ("7", "5"):
         table, behs = syntax.generate(check, family, num=n, seed=core.seed() + 5, depth=3)
         res = progs.run_programs(check, wp, family, behs, table, core.seed(), ["none", "crlf", "random"], progs.VERS[family][:2])
+        res += progs.halt_programs(check, wp, family, core.seed(), ["none", "crlf", "lf"], progs.VERS[family][:2], num=40 if tier == "quick" else 300)
         for m, t, r in res:
             check.count()
             check.distinct((family, m["i"], m["layout"], m["ver"]))
